@@ -115,6 +115,18 @@ FRAGMENTS = [
     lambda r: "<math>\\frac{a}{b}</math>",
     lambda r: "<gallery>\nFile:A.png|%s\nFile:B.png\n</gallery>" % words(r, 3),
     lambda r: "<ul><li>a</li><b>x</b><ol><li>q</li></ol>loose</ul>",
+    # an argument that carries an extension tag, used twice by the template
+    lambda r: "{{twice|%s}}" % r.choice(("<ref>%s</ref>", "<gallery>\nFile:A.png|%s\n</gallery>", "<poem>%s</poem>", "<nowiki>%s</nowiki>",
+                                         "<math>%s</math>", "<ref name=\"tw\">%s</ref>", "<source>%s</source>", "<imagemap>\nFile:A.png|%s\n</imagemap>"))
+    % words(r, 2),
+    lambda r: "<%s>%s</%s>" % ((lambda t: (t, r.choice(("<math>x</math>", "a<br/>b", "<math>y</math> z", "<b>q</b><li>i</li>", "[[File:a.png|20px]]",
+                                                      "<ref>r</ref>", "<div>d</div>")), t))(r.choice(("ul", "ol")))),
+    # a table that is dissolved into columns (long list in a cell / mp-upper) with a caption richer than its column count
+    lambda r: '{| %s\n|+ %s\n| %s\n| %s\n|}' % (
+        r.choice(('class="mp-upper"', 'id="mp-upper"', 'class="wikitable"', "")),
+        " ".join(r.choice(("'''%s'''", "[[L%s|l]]", "''%s''", "%s", "<small>%s</small>", "[[M%s]]", "[http://e.org/%s x]")) % words(r, 1)
+                 for _ in range(r.randint(1, 7))),
+        "\n" + "\n".join("* " + words(r, 1) for _ in range(r.choice((3, 26, 30)))), words(r, 2)),
     lambda r: "<ol><ol><li>%s</li></ol></ol>" % words(r, 2),
     lambda r: ":{|\n| a\n|}\n::{|\n| b\n|}",
     lambda r: "<p>%s<br/><br/></p><br/>" % words(r, 3),
@@ -201,6 +213,23 @@ def repeated(rnd):
     if x < 0.5:
         return "== %s ==\n%s" % (words(rnd, 1), body)
     return body
+
+
+def deep(rnd):
+    """one element nested far deeper than any article needs (the parser copes; copying such a subtree does not)"""
+    n = rnd.choice((120, 180, 250, 400))
+    tag = rnd.choice(("span", "b", "small", "div", "i", "sup"))
+    inner = "<%s>" % tag * n + words(rnd, 2) + "</%s>" % tag * n
+    x = rnd.random()
+    if x < 0.3:
+        return ":{|\n| " + inner + "\n| " + words(rnd, 1) + "\n|}"
+    if x < 0.5:
+        return "{|\n|\n* " + inner + "\n* " + words(rnd, 1) + "\n|}"
+    if x < 0.7:
+        return "; " + words(rnd, 1) + " : " + inner
+    if x < 0.85:
+        return "<u><center>" + inner + "</center></u>"
+    return inner + "\n\n" + words(rnd, 3)
 
 
 def document(rnd, n=None):
